@@ -19,6 +19,8 @@
 (* and prior paragraph, and prints each case with the expected paragraphs. *)
 (***************************************************************************)
 EXTENDS Deb822EditP, Json, TLC
+CONSTANT Deep   \* TRUE: every prior paragraph of up to 3 fields over own and foreign keys; every struct's paragraph with
+                \* one or two fields made unparsable and/or a mandatory field removed, in declaration and in reverse order
 
 KeyNames == <<"name", "X-Count", "Items", "Priority", "Flag">>
 Mandatory == {1, 3}
@@ -57,17 +59,32 @@ Broken == { [p |-> << <<3, 1>> >>, e |-> <<"missing", 1>>],
             [p |-> << <<1, 1>>, <<3, 1>>, <<5, Bad>>, <<4, 1>> >>, e |-> <<"invalid", 4>>],
             [p |-> << <<1, 1>>, <<3, Bad>> >>, e |-> <<"invalid", 3>>] }
 
+\* --- systematic scopes (Deep)
+OldVal(pos) == IF pos = 2 THEN 8 ELSE 7
+PriorsDeep == UNION { { [i \in 1..n |-> <<ks[i], OldVal(i)>>] : ks \in [1..n -> 1..7] } : n \in 0..3 }
+Rev(q) == [i \in 1..Len(q) |-> q[Len(q) + 1 - i]]
+Mangle(x, S, R) == LET t == To(x) IN
+  SelectSeq([i \in 1..Len(t) |-> IF t[i][1] \in S THEN <<t[i][1], Bad>> ELSE t[i]], LAMBDA f : f[1] \notin R)
+\* every offending field of a paragraph (the property asks that the error names ONE of them; From names the first)
+Offenders(p) == { <<"missing", i>> : i \in { m \in Mandatory : Get(p, m) = 0 } } \cup { <<"invalid", i>> : i \in { k \in 1..5 : Get(p, k) = Bad } }
+\* (field 1 is a String: every text parses, so only fields 2..5 can be made unparsable)
+BrokenDeep == { q \in UNION { { Mangle(x, S, R), Rev(Mangle(x, S, R)) } :
+                              x \in Structs, S \in { T \in SUBSET (2..5) : Cardinality(T) <= 2 }, R \in SUBSET Mandatory } :
+                From(q)[1] # "ok" }
+
 VARIABLE case
 Next == UNCHANGED case
 Init ==
-  \/ \E x \in Structs, p \in Priors : case = [k |-> "update", x |-> x, prior |-> p, to |-> To(x), upd |-> Update(x, p), err |-> <<>>]
-  \/ \E b \in Broken : case = [k |-> "broken", x |-> <<>>, prior |-> b.p, to |-> <<>>, upd |-> <<>>, err |-> IF b.e[1] = "invalid" /\ b.e[2] = 4 /\ Len(b.p) = 4 THEN <<"invalid", 5>> ELSE b.e]
+  \/ \E x \in Structs, p \in (IF Deep THEN PriorsDeep ELSE Priors) : case = [k |-> "update", x |-> x, prior |-> p, to |-> To(x), upd |-> Update(x, p), err |-> <<>>, off |-> {}]
+  \/ \E b \in Broken : LET e == IF b.e[1] = "invalid" /\ b.e[2] = 4 /\ Len(b.p) = 4 THEN <<"invalid", 5>> ELSE b.e IN
+                         case = [k |-> "broken", x |-> <<>>, prior |-> b.p, to |-> <<>>, upd |-> <<>>, err |-> e, off |-> Offenders(b.p)]
+  \/ Deep /\ \E q \in BrokenDeep : case = [k |-> "broken", x |-> <<>>, prior |-> q, to |-> <<>>, upd |-> <<>>, err |-> From(q), off |-> Offenders(q)]
 \* what TLC proves about the contract itself
 RoundTrip == case.k = "update" =>
   /\ From(case.to) = <<"ok", case.x>>
   /\ From(case.upd) = <<"ok", case.x>>
   /\ \A j \in 1..Len(case.prior) : case.prior[j][1] > 5 => \E i \in 1..Len(case.upd) : case.upd[i] = case.prior[j]      \* foreign fields kept
   /\ SelectSeq(case.upd, LAMBDA f : f[1] > 5) = SelectSeq(case.prior, LAMBDA f : f[1] > 5)                                \* ... in order
-BrokenOK == case.k = "broken" => From(case.prior) = case.err
+BrokenOK == case.k = "broken" => From(case.prior) = case.err /\ case.err \in case.off
 Emit == PrintT(<<"REPLAY", ToJson(case)>>)
 =============================================================================
